@@ -103,7 +103,7 @@ func c13Run(e *Env) {
 
 	type exch struct {
 		idx     int
-		kind    int // 0 get, 1 do-dup-token, 2 observe, 3 cancel-observation, 4 ping, 5 write, 6 big post (block-wise)
+		kind    int // 0 get, 1 do-dup-token, 2 observe, 3 cancel-observation, 4 ping, 5 write, 6 big post (block-wise), 7 async ping without cancel
 		call    *Call
 		outcome int // peer: 0 answer, 1 error code, 2 silence, 3 reset, 4 malformed block
 	}
@@ -176,7 +176,7 @@ func c13Run(e *Env) {
 	}
 
 	startEx := func() {
-		x := &exch{idx: len(exs), kind: t.Weighted(4, 1, 2, 1, 1, 1, 2)}
+		x := &exch{idx: len(exs), kind: t.Weighted(4, 1, 2, 1, 1, 1, 2, 1)}
 		to := []time.Duration{30 * time.Second, 3 * time.Second, 100 * time.Second, 0}[t.Choose(4)]
 		x.call = e.NewCall(fmt.Sprintf("ex%d", x.idx), x.idx, nil, to)
 		exs = append(exs, x)
@@ -215,6 +215,33 @@ func c13Run(e *Env) {
 				return nil, ob.Cancel(ctx)
 			case 4:
 				return nil, w.API.Ping(ctx)
+			case 7:
+				// the way the keep-alive monitor pings: AsyncPing, and once the pong has arrived the operation is
+				// over - its cancel function is only needed for a ping that is given up
+				e.Probe("ping.asyncWithoutCancel")
+				pong := make(chan struct{}, 4)
+				got := func() { pong <- struct{}{} }
+				var cancel func()
+				var err error
+				if w.UCC != nil {
+					cancel, err = w.UCC.AsyncPing(got)
+				} else {
+					cancel, err = w.TEP.CC.AsyncPing(got)
+				}
+				if err != nil {
+					return nil, err
+				}
+				select {
+				case <-pong:
+					e.Probe("ping.asyncAnswered")
+					return nil, nil
+				case <-ctx.Done():
+					cancel()
+					return nil, ctx.Err()
+				case <-w.API.Context().Done():
+					cancel()
+					return nil, w.API.Context().Err()
+				}
 			case 5:
 				m := w.API.AcquireMessage(ctx)
 				defer w.API.ReleaseMessage(m)
